@@ -589,7 +589,7 @@ FuncEndArg ==
   /\ LET mc == mem.mac[Top.m]
          i == Top.i
          s0 == IF Dev("StrTrailingNL") THEN Top.str ELSE StripTrail(Top.str)
-         m0 == IF "STR" \in mc.pf[i] /\ StripTrail(Top.str) # Top.str THEN Fire(mem, "StrTrailingNL") ELSE mem
+         m0 == IF Dev("StrTrailingNL") /\ "STR" \in mc.pf[i] /\ StripTrail(Top.str) # Top.str THEN Fire(mem, "StrTrailingNL") ELSE mem
          a1 == [Top EXCEPT !.strs = [q \in 1..i |-> IF q = i THEN (IF "STR" \in mc.pf[i] THEN PTok4("str", s0 \o "\"", FALSE) ELSE NlTok)
                                                     ELSE IF q <= Len(@) THEN @[q] ELSE NlTok]]
      IN IF IsPp(Top.t.val, ")") THEN
